@@ -143,7 +143,9 @@ impl<'a> Model<'a> {
             }
             let text = std::str::from_utf8(bytes).unwrap();
             let lines = grammar::split_lines(text);
-            let (items, _) = grammar::parse(&lines);
+            // clean-mode reading (a prefix-less directive line is skipped, parsing goes on): a
+            // superset of the directives a build sees, and what `clean` would delete
+            let items = parse_lenient(&lines);
             for it in &items {
                 if let Item::Dir(d, _) = it {
                     if d.kind == Kind::Temp {
